@@ -1,6 +1,7 @@
 package modes
 
 import (
+	"context"
 	"encoding/json"
 	"fmt"
 	"math/rand"
@@ -13,7 +14,10 @@ import (
 	"time"
 	"unicode"
 
+	lime "github.com/takenet/lime-go"
+
 	"limeverif/internal/codec"
+	"limeverif/internal/pair"
 )
 
 // ---- C02: decoding untrusted input never panics; accepted input re-encodes stably -----------
@@ -470,7 +474,7 @@ func init() {
 		return nil
 	})
 	Register("c02", func(e *Env) error {
-		e.Rep.Rule = "malformed stream: for ~44 seed encodings (hand-written ones reaching every decoder branch + generated ones) every single-point structural mutation at every node (delete member, replace by null / each wrong JSON type / degenerate media types / boundary and huge numbers, alien member, duplicate key, key case change, sub-tree swap) and sampled double-point mutations (every double in thorough) go through the real typed decoders and the real TCP receive path (in child processes, so that an input that kills the process is identified) and through the model; outcome class and accepted value are diffed; impl oracle = no panic / crash and accepted => re-encodes => decodes to an equal envelope. Non-trivial = mutant accepted by a decoder; distinct by wire text."
+		e.Rep.Rule = "malformed stream: for ~44 seed encodings (hand-written ones reaching every decoder branch + generated ones) every single-point structural mutation at every node (delete member, replace by null / each wrong JSON type / degenerate media types / boundary and huge numbers, alien member, duplicate key, key case change, sub-tree swap) and sampled double-point mutations (every double in thorough) go through the real typed decoders and the real TCP receive path (in child processes, so that an input that kills the process is identified) and through the model; outcome class and accepted value are diffed; impl oracle = no panic / crash and accepted => re-encodes => decodes to an equal envelope; plus rounds of 8 goroutines decoding envelopes with never-seen media types at the same time in a child process (a write to a shared decoder table is a fatal runtime error). Non-trivial = mutant accepted by a decoder; distinct by wire text."
 		cases := []*c02Case{}
 		addCase := func(kind string, t codec.Tree, origin string) {
 			cases = append(cases, &c02Case{Kind: kind, Wire: string(codec.TreeBytes(t)), Origin: origin})
@@ -479,6 +483,10 @@ func init() {
 			b, err := readReplayCase(e.Replay)
 			if err != nil {
 				return err
+			}
+			var cc c02ConcCase
+			if json.Unmarshal(b, &cc) == nil && cc.Goroutines > 0 {
+				return runConcurrentDecode(e)
 			}
 			var c c02Case
 			if err := json.Unmarshal(b, &c); err != nil {
@@ -564,6 +572,129 @@ func init() {
 			addCase(kinds[si], m2, fmt.Sprintf("seed %d double", si))
 		}
 		e.Rep.Sample(map[string]interface{}{"seed_kind": kinds[0], "seed": string(codec.TreeBytes(seeds[0]))}, 3)
+		if err := runConcurrentDecode(e); err != nil {
+			return err
+		}
 		return runDecodeCases(e, cases)
+	})
+}
+
+// ---- concurrent decoding -------------------------------------------------------------------------
+// Several connections decode at the same time (each on its receiver goroutine). The decoders share
+// package-level tables (document factories); a write to one of them during decoding is a fatal
+// runtime error ("concurrent map read and map write") that no recover can catch, i.e. a crash a remote
+// peer triggers with two connections. The case runs in a child process: G goroutines decode envelopes
+// whose media types nobody has seen before, through the typed decoders and a real TCP receive path each.
+
+type c02ConcCase struct {
+	Goroutines int `json:"goroutines"`
+	Iter       int `json:"iter"`
+}
+
+type c02ConcRes struct {
+	Decoded int    `json:"decoded"`
+	Panic   string `json:"panic,omitempty"`
+}
+
+func c02ConcRun(c c02ConcCase) c02ConcRes {
+	var wg sync.WaitGroup
+	var mu sync.Mutex
+	res := c02ConcRes{}
+	for g := 0; g < c.Goroutines; g++ {
+		wg.Add(1)
+		go func(g int) {
+			defer wg.Done()
+			defer func() {
+				if r := recover(); r != nil {
+					mu.Lock()
+					res.Panic = fmt.Sprint(r)
+					mu.Unlock()
+				}
+			}()
+			a, b := pair.NewBufConnPair()
+			t := lime.NewTCPTransportFromConn(b, true, nil)
+			defer t.Close()
+			n := 0
+			for i := 0; i < c.Iter; i++ {
+				mt := fmt.Sprintf("application/x-conc-%d-%d+json", g, i)
+				tt := fmt.Sprintf("text/x-conc-%d-%d", g, i)
+				wires := []string{
+					`{"id":"1","type":"` + mt + `","content":{"k":1}}`,
+					`{"id":"2","type":"` + tt + `","content":"x"}`,
+					`{"id":"3","type":"application/vnd.lime.container+json","content":{"type":"` + tt + `","value":"x"}}`,
+					`{"id":"4","type":"application/vnd.lime.collection+json","content":{"itemType":"` + mt + `","items":[{"a":1}]}}`,
+					`{"id":"5","method":"set","uri":"/x","type":"` + mt + `","resource":{"a":1}}`,
+				}
+				for _, w := range wires {
+					var m lime.Message
+					var rc lime.RequestCommand
+					_ = json.Unmarshal([]byte(w), &m)
+					_ = json.Unmarshal([]byte(w), &rc)
+					a.Write(append([]byte(w), '\n'))
+					ctx, cancel := context.WithTimeout(context.Background(), 5*time.Second)
+					_, err := t.Receive(ctx)
+					cancel()
+					if err == nil {
+						n++
+					}
+				}
+			}
+			mu.Lock()
+			res.Decoded += n
+			mu.Unlock()
+		}(g)
+	}
+	wg.Wait()
+	return res
+}
+
+func runConcurrentDecode(e *Env) error {
+	c := c02ConcCase{Goroutines: 8, Iter: e.N(60, 400)}
+	for round := 0; round < e.N(2, 6); round++ {
+		e.Rep.Eval()
+		e.Rep.Count("concurrent-decode round")
+		rs, err := RunChild("c02conc", []interface{}{c}, 120*time.Second)
+		if err != nil {
+			return err
+		}
+		for _, r := range rs {
+			if r.Res == nil {
+				e.Rep.Violate("impl", "c02-crash-concurrent", "decoding on several connections at once kills the process: "+firstLines(r.Crash, 3), c)
+				continue
+			}
+			var cr c02ConcRes
+			json.Unmarshal(r.Res, &cr)
+			if cr.Panic != "" {
+				e.Rep.Violate("impl", "c02-panic", "decoding on several connections at once panics: "+cr.Panic, c)
+			}
+			if cr.Decoded != c.Goroutines*c.Iter*5 {
+				e.Rep.Violate("impl", "c02-concurrent-refused", fmt.Sprintf("concurrent decoding accepted %d of %d valid envelopes", cr.Decoded, c.Goroutines*c.Iter*5), c)
+			} else {
+				e.Rep.Nontrivial(fmt.Sprintf("conc %d", round))
+			}
+		}
+	}
+	return nil
+}
+
+func firstLines(s string, n int) string {
+	ls := strings.Split(strings.TrimSpace(s), "\n")
+	if len(ls) > n {
+		ls = ls[:n]
+	}
+	return strings.Join(ls, " | ")
+}
+
+func init() {
+	Register("c02conc", func(e *Env) error {
+		ReadChildCases(func(n int, raw json.RawMessage) {
+			var c c02ConcCase
+			if err := json.Unmarshal(raw, &c); err != nil {
+				return
+			}
+			ChildBegin(n, &c)
+			ChildEnd(n, c02ConcRun(c))
+		})
+		return nil
 	})
 }
